@@ -267,6 +267,7 @@ pub fn shrink_layout(l: &Layout) -> Vec<Layout> {
     toggle!(trail, Vec::new());
     toggle!(extra, Vec::new());
     toggle!(meta_pos, Vec::new());
+    toggle!(pad_to, None);
     out
 }
 
